@@ -713,6 +713,37 @@ theorem specSlice_length_le (xs : List α) (start : Int) (len : Option Int) :
   | none => simp only [List.length_drop]; omega
   | some l => simp only []; split <;> simp only [List.length_take, List.length_drop] <;> omega
 
+theorem wrap64_eq (x : Int) (h0 : 0 ≤ x) (h1 : x < 2 ^ 64) :
+    wrap64 x = if x < 2 ^ 63 then x else x - 2 ^ 64 := by
+  unfold wrap64; split <;> omega
+
+/-- with the overflow guard the 64-bit end index is the mathematical one -/
+theorem endIdx64_eq (n s1 : Int) (len : Option Int) (h0 : 0 ≤ s1) (h1 : s1 < n) (hn : n < 2 ^ 63)
+    (hl : ∀ l, len = some l → l < 2 ^ 63) : endIdx64 n s1 len = endIdx n s1 len := by
+  cases len with
+  | none => rfl
+  | some l =>
+    have hl' := hl l rfl
+    simp only [endIdx64, endIdx]
+    by_cases hge : l ≥ 0
+    · simp only [hge, if_true]
+      rw [wrap64_eq (s1 + l) (by omega) (by omega)]
+      simp only [Bool.or_eq_true, decide_eq_true_eq]
+      (repeat' split) <;> omega
+    · simp only [hge, if_false]
+
+/-- filterSlice with 64-bit ints computes Twig's slice: for every list shorter than 2^63 and every
+    64-bit start and optional length -/
+theorem goSlice64_eq_spec (xs : List α) (start : Int) (len : Option Int) (hn : (xs.length : Int) < 2 ^ 63)
+    (hl : ∀ l, len = some l → l < 2 ^ 63) : goSlice64 xs start len = specSlice xs start len := by
+  rw [← goSlice_eq_spec]
+  unfold goSlice64 goSlice
+  simp only []
+  split
+  · rfl
+  · rename_i h
+    rw [endIdx64_eq _ _ len (normStart_nonneg _ _) (by omega) hn hl]
+
 end Slice
 
 /-! ## the last rune -/
@@ -856,6 +887,337 @@ theorem joinWith_cons_flatten (sep : Bytes) (g : Bytes) (gs : List Bytes) :
   induction gs generalizing g with
   | nil => simp [joinWith]
   | cons g2 rest ih => simp [joinWith, ih g2]
+
+
+
+/-! ### digit strings (roundDecimal) -/
+
+theorem foldl_val (ds : List Nat) (acc : Nat) :
+    ds.foldl (fun a d => a * 10 + d) acc = acc * 10 ^ ds.length + valOf ds := by
+  induction ds generalizing acc with
+  | nil => simp [valOf]
+  | cons d t ih =>
+    simp only [List.foldl_cons, valOf, List.length_cons]
+    rw [ih (acc * 10 + d), ih (0 * 10 + d)]
+    simp only [Nat.zero_mul, Nat.zero_add, Nat.pow_succ]
+    grind
+
+theorem valOf_cons (d : Nat) (t : List Nat) : valOf (d :: t) = d * 10 ^ t.length + valOf t := by
+  have := foldl_val t (0 * 10 + d)
+  simpa [valOf] using this
+
+theorem valOf_append (a c : List Nat) : valOf (a ++ c) = valOf a * 10 ^ c.length + valOf c := by
+  unfold valOf
+  rw [List.foldl_append, foldl_val]
+  rfl
+
+theorem valOf_lt (ds : List Nat) (h : ∀ d ∈ ds, d ≤ 9) : valOf ds < 10 ^ ds.length := by
+  induction ds with
+  | nil => simp [valOf]
+  | cons d t ih =>
+    rw [valOf_cons, List.length_cons, Nat.pow_succ]
+    have h1 : d ≤ 9 := h d (by simp)
+    have h2 := ih (fun x hx => h x (by simp [hx]))
+    have h3 : d * 10 ^ t.length ≤ 9 * 10 ^ t.length := Nat.mul_le_mul_right _ h1
+    omega
+
+theorem valOf_replicate (n : Nat) : valOf (List.replicate n 0) = 0 := by
+  induction n with
+  | zero => rfl
+  | succ n ih => rw [List.replicate_succ, valOf_cons, ih]; simp
+
+theorem pow_pos10 (n : Nat) : 0 < 10 ^ n := Nat.pow_pos (by omega)
+
+/-- splitting a digit string at position `j` is division with remainder by a power of ten -/
+theorem valOf_take_drop (ds : List Nat) (h : ∀ d ∈ ds, d ≤ 9) (j : Nat) :
+    valOf (ds.take j) = valOf ds / 10 ^ (ds.drop j).length ∧
+    valOf (ds.drop j) = valOf ds % 10 ^ (ds.drop j).length := by
+  have e : valOf ds = valOf (ds.take j) * 10 ^ (ds.drop j).length + valOf (ds.drop j) := by
+    rw [← valOf_append, List.take_append_drop]
+  have hlt : valOf (ds.drop j) < 10 ^ (ds.drop j).length :=
+    valOf_lt _ (fun d hd => h d (List.mem_of_mem_drop hd))
+  have hpos := pow_pos10 (ds.drop j).length
+  generalize 10 ^ (ds.drop j).length = T at *
+  constructor
+  · rw [e, Nat.mul_comm, Nat.mul_add_div hpos, Nat.div_eq_of_lt hlt]; simp
+  · rw [e, Nat.mul_comm, Nat.mul_add_mod, Nat.mod_eq_of_lt hlt]
+
+theorem incrAux_spec (ds : List Nat) (h : ∀ d ∈ ds, d ≤ 9) :
+    (incrAux ds).1.length = ds.length ∧ (∀ d ∈ (incrAux ds).1, d ≤ 9) ∧
+    valOf (incrAux ds).1 + (if (incrAux ds).2 then 10 ^ ds.length else 0) = valOf ds + 1 := by
+  induction ds with
+  | nil => simp [incrAux, valOf]
+  | cons d t ih =>
+    have hd : d ≤ 9 := h d (by simp)
+    obtain ⟨il, id9, iv⟩ := ih (fun x hx => h x (by simp [hx]))
+    simp only [incrAux]
+    by_cases hc : (incrAux t).2 = true
+    · rw [hc] at iv
+      simp only [hc, if_true] at iv ⊢
+      by_cases h9 : d = 9
+      · subst h9
+        simp only [if_true]
+        refine ⟨by simp [il], ?_, ?_⟩
+        · intro x hx; rcases List.mem_cons.mp hx with rfl | hx
+          · omega
+          · exact id9 x hx
+        · simp only [valOf_cons, il, List.length_cons, Nat.pow_succ]; omega
+      · simp only [h9, if_false]
+        refine ⟨by simp [il], ?_, ?_⟩
+        · intro x hx; rcases List.mem_cons.mp hx with rfl | hx
+          · omega
+          · exact id9 x hx
+        · simp only [Bool.false_eq_true, if_false, valOf_cons, il, Nat.add_mul]; omega
+    · have hc' : (incrAux t).2 = false := by simpa using hc
+      rw [hc'] at iv
+      simp only [hc', Bool.false_eq_true, if_false] at iv ⊢
+      refine ⟨by simp [il], ?_, ?_⟩
+      · intro x hx; rcases List.mem_cons.mp hx with rfl | hx
+        · exact hd
+        · exact id9 x hx
+      · simp only [valOf_cons, il]; omega
+
+/-- 'c': the first dropped digit is ≥ 5 exactly when the dropped part is at least half a unit -/
+theorem roundsUp_common (neg : Bool) (dropped : List Nat) (h : ∀ d ∈ dropped, d ≤ 9) (hne : dropped ≠ []) :
+    roundsUp .common neg dropped = decide (10 ^ dropped.length ≤ 2 * valOf dropped) := by
+  cases dropped with
+  | nil => exact absurd rfl hne
+  | cons d t =>
+    have hd : d ≤ 9 := h d (by simp)
+    have hlt := valOf_lt t (fun x hx => h x (by simp [hx]))
+    simp only [roundsUp, valOf_cons, List.length_cons, Nat.pow_succ]
+    generalize 10 ^ t.length = T at *
+    by_cases h5 : 5 ≤ d
+    · have : 5 * T ≤ d * T := Nat.mul_le_mul_right _ h5
+      simp only [h5, decide_true]; symm; simp only [decide_eq_true_eq]; omega
+    · have : d * T ≤ 4 * T := Nat.mul_le_mul_right _ (by omega)
+      simp only [h5, decide_false]; symm; simp only [decide_eq_false_iff_not]; omega
+
+theorem any_nonzero (ds : List Nat) : ds.any (· != 0) = decide (valOf ds ≠ 0) := by
+  induction ds with
+  | nil => simp [valOf]
+  | cons d t ih =>
+    rw [List.any_cons, ih, valOf_cons, Bool.eq_iff_iff]
+    simp only [Bool.or_eq_true, bne_iff_ne, decide_eq_true_eq]
+    have := pow_pos10 t.length
+    by_cases hd : d = 0
+    · subst hd; simp
+    · have hp : 0 < d * 10 ^ t.length := Nat.mul_pos (by omega) this
+      constructor
+      · intro _; omega
+      · intro _; exact Or.inl hd
+
+/-- nearest-with-ties-up is "quotient, plus one when the remainder is at least half" -/
+theorem specRoundDiv_eq (m d : Nat) (hd : 0 < d) :
+    specRoundDiv m d = m / d + (if d ≤ 2 * (m % d) then 1 else 0) := by
+  unfold specRoundDiv
+  have hm := Nat.div_add_mod m d
+  have hr := Nat.mod_lt m hd
+  generalize m / d = q at *
+  generalize m % d = r at *
+  apply (Nat.div_eq_iff (by omega : 0 < 2 * d)).mpr
+  have e1 : (q + 1) * (2 * d) = 2 * (d * q) + 2 * d := by grind
+  have e0 : q * (2 * d) = 2 * (d * q) := by grind
+  split
+  · rw [e1]; constructor <;> omega
+  · simp only [Nat.add_zero]; rw [e0]; constructor <;> omega
+
+theorem digitsAuxN_spec : ∀ (f n : Nat) (acc : List Nat), n < 10 ^ f → (∀ d ∈ acc, d ≤ 9) →
+    valOf (digitsAuxN f n acc) = n * 10 ^ acc.length + valOf acc ∧ (∀ d ∈ digitsAuxN f n acc, d ≤ 9) := by
+  intro f
+  induction f with
+  | zero => intro n acc h hacc; have : n = 0 := by simpa using h
+            subst this; simp [digitsAuxN]; exact hacc
+  | succ f ih =>
+    intro n acc h hacc
+    simp only [digitsAuxN]
+    split
+    · rename_i h10
+      rw [valOf_cons]
+      refine ⟨rfl, ?_⟩
+      intro d hd; rcases List.mem_cons.mp hd with rfl | hd
+      · omega
+      · exact hacc d hd
+    · have hlt : n / 10 < 10 ^ f := by rw [Nat.pow_succ] at h; omega
+      have hacc' : ∀ d ∈ n % 10 :: acc, d ≤ 9 := by
+        intro d hd; rcases List.mem_cons.mp hd with rfl | hd
+        · omega
+        · exact hacc d hd
+      obtain ⟨hv, h9⟩ := ih (n / 10) (n % 10 :: acc) hlt hacc'
+      refine ⟨?_, h9⟩
+      rw [hv, valOf_cons, List.length_cons, Nat.pow_succ]
+      have := Nat.div_add_mod n 10
+      generalize 10 ^ acc.length = T at *
+      generalize n / 10 = q at *
+      generalize n % 10 = r at *
+      subst this
+      grind
+
+theorem digitsN_spec (n : Nat) : valOf (digitsN n) = n ∧ ∀ d ∈ digitsN n, d ≤ 9 := by
+  have h : n < 10 ^ (n + 1) := Nat.lt_of_lt_of_le (Nat.lt_pow_self (by omega)) (Nat.pow_le_pow_right (by omega) (by omega))
+  have := digitsAuxN_spec (n + 1) n [] h (by simp)
+  simpa [digitsN, valOf] using this
+
+theorem floatDigits_spec (m k : Nat) :
+    valOf (floatDigits m k) = m ∧ (∀ d ∈ floatDigits m k, d ≤ 9) ∧ k + 1 ≤ (floatDigits m k).length := by
+  obtain ⟨hv, h9⟩ := digitsN_spec m
+  unfold floatDigits
+  refine ⟨?_, ?_, ?_⟩
+  · simp only [valOf_append, valOf_replicate, hv]; simp
+  · intro d hd
+    rcases List.mem_append.mp hd with hd | hd
+    · have := List.eq_of_mem_replicate hd; omega
+    · exact h9 d hd
+  · simp only [List.length_append, List.length_replicate]; omega
+
+theorem stripZeros_spec : ∀ (k m : Nat), (stripZeros m k).2 ≤ k ∧ m = (stripZeros m k).1 * 10 ^ (k - (stripZeros m k).2) := by
+  intro k
+  induction k with
+  | zero => intro m; simp [stripZeros]
+  | succ k ih =>
+    intro m
+    simp only [stripZeros]
+    split
+    · rename_i h0
+      obtain ⟨h1, h2⟩ := ih (m / 10)
+      refine ⟨by omega, ?_⟩
+      have e : k + 1 - (stripZeros (m / 10) k).2 = (k - (stripZeros (m / 10) k).2) + 1 := by omega
+      rw [e, Nat.pow_succ, ← Nat.mul_assoc, ← h2]
+      omega
+    · simp
+
+/-- exact result of rounding `m/10^k` to `p` decimals in the given mode, as `N` with value `N/10^p` -/
+def specMode (mode : Mode) (neg : Bool) (m k p : Nat) : Nat :=
+  if k ≤ p then m * 10 ^ (p - k) else specModeDiv mode neg m (10 ^ (k - p))
+
+theorem incr_val (kept : List Nat) (h : ∀ d ∈ kept, d ≤ 9) :
+    valOf (if (incrAux kept).2 then 1 :: (incrAux kept).1 else (incrAux kept).1) = valOf kept + 1 := by
+  obtain ⟨il, _, iv⟩ := incrAux_spec kept h
+  by_cases hc : (incrAux kept).2 = true
+  · rw [hc] at iv; simp only [hc, if_true] at iv ⊢
+    rw [valOf_cons, il]; omega
+  · have hc' : (incrAux kept).2 = false := by simpa using hc
+    rw [hc'] at iv; simp only [hc', Bool.false_eq_true, if_false] at iv ⊢
+    omega
+
+/-- the digit work of roundDecimal computes the exact rounding of the number the digits denote -/
+theorem roundCore_val (D : List Nat) (point p : Nat) (neg : Bool) (mode : Mode)
+    (h9 : ∀ d ∈ D, d ≤ 9) (hpt : point ≤ D.length) :
+    valOf (roundCore D point p neg mode) = specMode mode neg (valOf D) (D.length - point) p := by
+  unfold roundCore specMode
+  simp only []
+  by_cases hk : D.length ≤ point + p
+  · have hk' : D.length - point ≤ p := by omega
+    rw [if_pos hk, if_pos hk', valOf_append, valOf_replicate, List.length_replicate]
+    have : point + p - D.length = p - (D.length - point) := by omega
+    rw [this]; simp
+  · have hk' : ¬ (D.length - point ≤ p) := by omega
+    rw [if_neg hk, if_neg hk']
+    have hdl : (D.drop (point + p)).length = D.length - point - p := by simp only [List.length_drop]; omega
+    obtain ⟨htake, hdrop⟩ := valOf_take_drop D h9 (point + p)
+    rw [hdl] at htake hdrop
+    have h9k : ∀ d ∈ D.take (point + p), d ≤ 9 := fun d hd => h9 d (List.mem_of_mem_take hd)
+    have h9d : ∀ d ∈ D.drop (point + p), d ≤ 9 := fun d hd => h9 d (List.mem_of_mem_drop hd)
+    have hne : D.drop (point + p) ≠ [] := by
+      intro h; have := congrArg List.length h; rw [hdl] at this; simp at this; omega
+    have hpos := pow_pos10 (D.length - point - p)
+    have key : valOf (if roundsUp mode neg (D.drop (point + p)) = true then
+          (if (incrAux (D.take (point + p))).2 then 1 :: (incrAux (D.take (point + p))).1 else (incrAux (D.take (point + p))).1)
+        else D.take (point + p)) = specModeDiv mode neg (valOf D) (10 ^ (D.length - point - p)) := by
+      cases mode with
+      | common =>
+        rw [roundsUp_common neg _ h9d hne, hdl, hdrop]
+        simp only [specModeDiv, specRoundDiv_eq _ _ hpos]
+        split
+        · rename_i h; simp only [decide_eq_true_eq] at h; rw [incr_val _ h9k, htake, if_pos h]
+        · rename_i h; simp only [decide_eq_true_eq] at h; rw [htake, if_neg h]; simp
+      | up =>
+        simp only [roundsUp, any_nonzero, hdrop, specModeDiv]
+        split
+        · rename_i h; rw [incr_val _ h9k, htake]
+          simp only [Bool.and_eq_true, Bool.not_eq_true', decide_eq_true_eq] at h
+          simp [h.1, h.2]
+        · rename_i h; rw [htake]
+          simp only [Bool.and_eq_true, Bool.not_eq_true', decide_eq_true_eq, not_and, ne_eq, Decidable.not_not] at h
+          cases neg <;> simp_all
+      | down =>
+        simp only [roundsUp, any_nonzero, hdrop, specModeDiv]
+        split
+        · rename_i h; rw [incr_val _ h9k, htake]
+          simp only [Bool.and_eq_true, decide_eq_true_eq] at h
+          simp [h.1, h.2]
+        · rename_i h; rw [htake]
+          simp only [Bool.and_eq_true, decide_eq_true_eq, not_and, ne_eq, Decidable.not_not] at h
+          cases neg <;> simp_all
+    exact key
+
+theorem specModeDiv_scale (mode : Mode) (neg : Bool) (a d c : Nat) (hc : 0 < c) :
+    specModeDiv mode neg (a * c) (d * c) = specModeDiv mode neg a d := by
+  have hmod : (a * c) % (d * c) ≠ 0 ↔ a % d ≠ 0 := by
+    rw [Nat.mul_mod_mul_right]
+    constructor
+    · intro h h0; rw [h0] at h; simp at h
+    · intro h h0
+      rcases Nat.mul_eq_zero.mp h0 with h1 | h1
+      · exact h h1
+      · omega
+  cases mode with
+  | common =>
+    simp only [specModeDiv, specRoundDiv]
+    have e1 : 2 * (a * c) + d * c = (2 * a + d) * c := by grind
+    have e2 : 2 * (d * c) = (2 * d) * c := by grind
+    rw [e1, e2, Nat.mul_div_mul_right _ _ hc]
+  | up =>
+    simp only [specModeDiv, Nat.mul_div_mul_right _ _ hc]
+    by_cases h : a % d ≠ 0
+    · have := hmod.mpr h; simp [h, this]
+    · have h' : ¬ ((a * c) % (d * c) ≠ 0) := fun x => h (hmod.mp x)
+      simp only [ne_eq, Decidable.not_not] at h h'; simp [h, h']
+  | down =>
+    simp only [specModeDiv, Nat.mul_div_mul_right _ _ hc]
+    by_cases h : a % d ≠ 0
+    · have := hmod.mpr h; simp [h, this]
+    · have h' : ¬ ((a * c) % (d * c) ≠ 0) := fun x => h (hmod.mp x)
+      simp only [ne_eq, Decidable.not_not] at h h'; simp [h, h']
+
+theorem specModeDiv_one (mode : Mode) (neg : Bool) (a : Nat) : specModeDiv mode neg a 1 = a := by
+  cases mode <;> simp [specModeDiv, specRoundDiv, Nat.mod_one] ; omega
+
+theorem specModeDiv_mul_self (mode : Mode) (neg : Bool) (a d : Nat) (hd : 0 < d) :
+    specModeDiv mode neg (a * d) d = a := by
+  have := specModeDiv_scale mode neg a 1 d hd
+  rw [Nat.one_mul] at this
+  rw [this, specModeDiv_one]
+
+/-- trailing zeros of the fraction do not change the rounding -/
+theorem specMode_strip (mode : Mode) (neg : Bool) (m' k' k p : Nat) (hk : k' ≤ k) :
+    specMode mode neg (m' * 10 ^ (k - k')) k p = specMode mode neg m' k' p := by
+  unfold specMode
+  by_cases h1 : k ≤ p
+  · have h2 : k' ≤ p := by omega
+    rw [if_pos h1, if_pos h2, Nat.mul_assoc, ← Nat.pow_add]
+    congr 2; omega
+  · rw [if_neg h1]
+    by_cases h2 : k' ≤ p
+    · rw [if_pos h2]
+      have e : 10 ^ (k - k') = 10 ^ (p - k') * 10 ^ (k - p) := by rw [← Nat.pow_add]; congr 1; omega
+      rw [e, ← Nat.mul_assoc, specModeDiv_mul_self _ _ _ _ (pow_pos10 _)]
+    · rw [if_neg h2]
+      have e : 10 ^ (k - p) = 10 ^ (k' - p) * 10 ^ (k - k') := by rw [← Nat.pow_add]; congr 1; omega
+      rw [e, specModeDiv_scale _ _ _ _ _ (pow_pos10 _)]
+
+/-- filterRound's decimal path IS exact decimal rounding, in every mode, for every decimal and precision -/
+theorem goRoundModeN_eq_spec (mode : Mode) (neg : Bool) (m k p : Nat) :
+    goRoundModeN mode neg m k p = specMode mode neg m k p := by
+  unfold goRoundModeN
+  simp only []
+  obtain ⟨hk, hm⟩ := stripZeros_spec k m
+  generalize (stripZeros m k).1 = m' at *
+  generalize (stripZeros m k).2 = k' at *
+  obtain ⟨hv, h9, hl⟩ := floatDigits_spec m' k'
+  rw [roundCore_val _ _ _ _ _ h9 (by omega), hv]
+  have : (floatDigits m' k').length - ((floatDigits m' k').length - k') = k' := by omega
+  rw [this, hm, specMode_strip _ _ _ _ _ _ hk]
 
 end Num
 
